@@ -426,9 +426,20 @@ func (g *Gen) Value(t *TyDef, budget *int) *Val {
 			return &Val{K: "T", Sec: -62135596800, Nsec: 1}
 		}
 		return &Val{K: "T", Sec: int64(g.r.U64()%(1<<33)) - (1 << 31), Nsec: int64(g.r.Intn(1000000000))}
+	case "ext":
+		if g.r.P(30) {
+			return &Val{K: "p"}
+		}
+		if g.r.P(40) {
+			return &Val{K: "p", P: zeroVal(extPayload[t.Name])}
+		}
+		return &Val{K: "p", P: g.Value(extPayload[t.Name], budget)}
 	case "ptr":
 		if small || g.r.P(30) || isCut(t.Elem) {
 			return &Val{K: "p"}
+		}
+		if g.r.P(30) {
+			return &Val{K: "p", P: zeroVal(t.Elem)}
 		}
 		return &Val{K: "p", P: g.Value(t.Elem, budget)}
 	case "slice":
@@ -526,7 +537,7 @@ func zeroVal(t *TyDef) *Val {
 		return &Val{K: "s"}
 	case "time":
 		return &Val{K: "T", Sec: -62135596800}
-	case "ptr":
+	case "ptr", "ext":
 		return &Val{K: "p"}
 	case "slice":
 		if t.isBytes() {
